@@ -193,63 +193,66 @@ Definition brif_rewrite (c : N) (arity : N) (idx : nat) : option (list ainstr) :
   else None.
 
 (** how [run] treats a basic instruction *)
-Inductive bkind := KPending | KFlushKeep | KCall (idx : nat) | KBrIf (idx : nat) | KMemGrow.
+Inductive bkind := KPending | KFlushKeep | KCall (idx : nat) | KBrIf (idx : nat) | KMemGrow | KTick.
 Definition kind_of (b : binstr) : bkind :=
   match b with
   | BUnreachable | BBr _ | BBrTable _ _ | BCallIndirect _ | BReturn => KFlushKeep
   | BCall idx => KCall idx
   | BBrIf idx => KBrIf idx
   | BMemoryGrow => KMemGrow
+  | BTick _ => KTick   (* never in a parsed module; the structured presentation is not defined on it *)
   | _ => KPending
   end.
 
-(** [minstr L i hr rest'] : [hr]/[rest'] = head cost and transformed form of what follows [i] in
-    its sequence; result = head cost and transformed form of [i :: rest].
+(** [mi L i] = [Some (h, pre, fl)]: the transformed form [pre] of the single instruction [i]
+    (one or two instructions), the cost [h] that [i] contributes to the segment it is the head of, and
+    whether the straight-line segment ends with [i] ([fl] = true: the instructions after [i] start a new
+    segment and get their own tick).
     [mseq L is] = [Some (h, is')]: [h] = cost of the head segment of [is], [is'] = transformed
     sequence without the tick of the head segment.  The delimiters [End]/[Else] cost 0 in both
     schedules ([cost_positive]); [MeterProofs.flat_structured_agree] has that as hypothesis. *)
-Fixpoint minstr (L : list blocktype) (i : instr) (hr : N) (rest' : list ainstr) {struct i}
-  : option (N * list ainstr) :=
+Definition mcombine (r : N * list ainstr * bool) (hr : N) (rest' : list ainstr) : option (N * list ainstr) :=
+  let '(h, pre, fl) := r in
+  if fl then (if seg_ok hr then Some (h, pre ++ tick_opt hr ++ rest') else None)
+  else Some (h + hr, pre ++ rest').
+
+Fixpoint mi (L : list blocktype) (i : instr) {struct i} : option (N * list ainstr * bool) :=
   let mseq_in := fix mseq_in (L' : list blocktype) (is : list instr) {struct is} : option (N * list ainstr) :=
     match is with
     | [] => Some (0, [])
     | j :: r =>
-        match mseq_in L' r with
-        | Some (h, r') => minstr L' j h r'
-        | None => None
+        match mseq_in L' r, mi L' j with
+        | Some (hr, r'), Some x => mcombine x hr r'
+        | _, _ => None
         end
     end in
   match i with
   | Basic b =>
       obind (c_cost cfg (OBasic b) L cx) (fun c =>
       match kind_of b with
-      | KPending => Some (c + hr, ABasic (OSrc c 0) b :: rest')
-      | KMemGrow => Some (c + hr, ABasic OInj (BCall fn_idx_memory_alloc) :: ABasic (OSrc c 0) b :: rest')
-      | KFlushKeep => if seg_ok hr then Some (c, ABasic (OSrc c 0) b :: tick_opt hr ++ rest') else None
-      | KCall idx =>
-          if seg_ok hr
-          then Some (c, ABasic (OSrc c 0) (BCall (idx + num_added_functions)%nat) :: tick_opt hr ++ rest')
-          else None
+      | KPending => Some (c, [ABasic (OSrc c 0) b], false)
+      | KMemGrow => Some (c, [ABasic OInj (BCall fn_idx_memory_alloc); ABasic (OSrc c 0) b], false)
+      | KFlushKeep => Some (c, [ABasic (OSrc c 0) b], true)
+      | KCall idx => Some (c, [ABasic (OSrc c 0) (BCall (idx + num_added_functions)%nat)], true)
       | KBrIf idx =>
           obind (lookup_label L idx) (fun a =>
-          obind (brif_rewrite c a idx) (fun rw =>
-          if seg_ok hr then Some (c, rw ++ tick_opt hr ++ rest') else None))
+          obind (brif_rewrite c a idx) (fun rw => Some (c, rw, true)))
+      | KTick => None
       end)
   | Block bt body =>
       obind (c_cost cfg (OBlock bt) L cx) (fun c =>
       obind (mseq_in (bt :: L) body) (fun '(hb, body') =>
-      if seg_ok hr then Some (c + hb, ABlock (OSrc c 0) bt body' :: tick_opt hr ++ rest') else None))
+      Some (c + hb, [ABlock (OSrc c 0) bt body'], true)))
   | Loop bt body =>
       obind (c_cost cfg (OLoop bt) L cx) (fun c =>
       obind (mseq_in (None :: L) body) (fun '(hb, body') =>
-      if seg_ok hr && seg_ok hb
-      then Some (c, ALoop (OSrc c 0) bt (tick_opt hb ++ body') :: tick_opt hr ++ rest') else None))
+      if seg_ok hb then Some (c, [ALoop (OSrc c 0) bt (tick_opt hb ++ body')], true) else None))
   | If bt thn els =>
       obind (c_cost cfg (OIf bt) L cx) (fun c =>
       obind (mseq_in (bt :: L) thn) (fun '(ht, thn') =>
       obind (mseq_in (bt :: L) els) (fun '(he, els') =>
-      if seg_ok hr && seg_ok ht && seg_ok he then
-        Some (c, AIf (OSrc c 0) bt (tick_opt ht ++ thn') (tick_opt he ++ els') :: tick_opt hr ++ rest')
+      if seg_ok ht && seg_ok he
+      then Some (c, [AIf (OSrc c 0) bt (tick_opt ht ++ thn') (tick_opt he ++ els')], true)
       else None)))
   end.
 
@@ -257,9 +260,9 @@ Fixpoint mseq (L : list blocktype) (is : list instr) : option (N * list ainstr) 
   match is with
   | [] => Some (0, [])
   | j :: r =>
-      match mseq L r with
-      | Some (h, r') => minstr L j h r'
-      | None => None
+      match mseq L r, mi L j with
+      | Some (hr, r'), Some x => mcombine x hr r'
+      | _, _ => None
       end
   end.
 
